@@ -102,6 +102,16 @@ class Proc:
         return s
 
 
+class RawProc(Proc):
+    """a process whose command pattern is given literally"""
+    def __init__(self, name, rawpat, **kw):
+        Proc.__init__(self, name, **kw)
+        self.rawpat = rawpat
+
+    def pattern(self):
+        return self.rawpat
+
+
 class Spec:
     def __init__(self, maxtasks=4, bufsize=None):
         self.max, self.bufsize = maxtasks, bufsize
